@@ -161,6 +161,45 @@ fn ends_in_comment(s: &str) -> bool {
   scan_comments(s.trim_end()).1
 }
 
+/// Insert `indent` after every line break of `s` that is layout, i.e. not
+/// inside a text or byte string literal (indenting there would change the
+/// literal's value).
+#[cfg(feature = "ast-comments")]
+fn indent_continuation_lines(s: &str, indent: &str) -> String {
+  let mut out = String::with_capacity(s.len() + 8);
+  let mut quote: Option<char> = None;
+  let mut comment = false;
+  let mut chars = s.chars();
+  while let Some(c) = chars.next() {
+    out.push(c);
+    if comment {
+      if c == '\n' {
+        comment = false;
+        out.push_str(indent);
+      }
+      continue;
+    }
+    match quote {
+      Some(q) => {
+        if c == '\\' && q == '"' {
+          if let Some(n) = chars.next() {
+            out.push(n);
+          }
+        } else if c == q {
+          quote = None;
+        }
+      }
+      None => match c {
+        '"' | '\'' => quote = Some(c),
+        ';' => comment = true,
+        '\n' => out.push_str(indent),
+        _ => {}
+      },
+    }
+  }
+  out
+}
+
 /// Whether a line break in `s` lies inside a text or byte string literal
 /// (a `'...'` byte string may contain raw line breaks). Such a line break is
 /// part of a value, not layout.
@@ -2175,7 +2214,7 @@ impl fmt::Display for Group<'_> {
 
           #[cfg(feature = "ast-comments")]
           if self.group_choices.len() > 2 && gc.has_entries_with_comments_before_comma() {
-            gc_str = gc_str.replace('\n', "\n\t\t");
+            gc_str = indent_continuation_lines(&gc_str, "\t\t");
             group_str.push_str(&trim_end_keep_comment(gc_str.trim_start()));
           } else {
             group_str.push_str(gc_str.trim_start());
@@ -2200,7 +2239,7 @@ impl fmt::Display for Group<'_> {
 
       #[cfg(feature = "ast-comments")]
       if self.group_choices.len() > 2 && gc.has_entries_with_comments_before_comma() {
-        gc_str = gc_str.replace('\n', "\n\t\t");
+        gc_str = indent_continuation_lines(&gc_str, "\t\t");
       }
 
       if self.group_choices.len() <= 2 {
